@@ -6,6 +6,7 @@ import Driver.OpsCkt
 import Driver.OpsSess
 import Driver.OpsBasic
 import Driver.OpsCmd
+import Driver.OpsGuard
 open Driver
 
 def opGrid (args : List String) : String :=
@@ -47,6 +48,7 @@ def dispatch (line : String) : String :=
   | "sess" :: r => opSess r
   | "basic" :: r => opBasic r
   | "cmd" :: r => opCmd r
+  | "guard" :: r => opGuard r
   | _ => "bad-op"
 
 partial def loop (h : IO.FS.Stream) (out : IO.FS.Stream) : IO Unit := do
